@@ -74,6 +74,17 @@ def host_path_suffixes(chk):
     for d in path:
         rest = d[len("x86_64"):].strip("/")
         suf.add(rest.replace("/", "_") if rest else "x86_64")
+    # independent necessary condition from /proc/cpuinfo (config.guess shares cpuid.c with the fat dispatcher):
+    # an Intel host never gets AMD kernel directories and vice versa; AVX directories need the avx2 flag
+    amd = {"k8", "k8_k8only", "k8_k10", "k8_k10_k102", "bulldozer", "bulldozer_piledriver", "bobcat"}
+    intel = {"core2", "core2_penryn", "nehalem", "nehalem_westmere", "sandybridge", "sandybridge_ivybridge", "haswell", "haswell_avx", "haswell_broadwell", "skylake", "skylake_avx", "atom", "netburst"}
+    try:
+        ci = open("/proc/cpuinfo").read(); vendor = re.search(r"vendor_id\s*:\s*(\S+)", ci).group(1); flags = set(re.search(r"flags\s*:\s*(.*)", ci).group(1).split())
+        if vendor == "GenuineIntel": suf -= amd
+        elif vendor == "AuthenticAMD": suf -= intel
+        if "avx2" not in flags: suf -= {"haswell_avx", "skylake_avx"}
+        if "adx" not in flags: suf -= {"haswell_broadwell", "skylake_avx"}
+    except Exception: pass
     return cpu, suf | {"fat", "x86_64"}
 
 def fat_dispatch_check(chk, vdir):
